@@ -48,6 +48,10 @@ def run(prog, R, tier="quick", only_rule=None):
     # "absent for Remove": the tombstone a Remove verdict writes must survive until the last level
     from rules.props import c01
     c01.c01c(prog, R, rid="C17.f")
+    c17g(prog, R)
+    # "snapshots taken before the compaction are unaffected": the version a snapshot pinned is not trimmed at the watermark
+    from rules.props import c20
+    c20.c20d(prog, R, rid="C17.h")
 
 
 def c17a(prog, R):
@@ -187,3 +191,37 @@ def c17d(prog, R, rid="C17.d"):
     from rules.props import c08
     c08.with_merge_guards(prog, r)
     r.floor(11)
+
+
+def c17g(prog, R, rid="C17.g"):
+    """A blob writer compresses what it is given only in `Standard` mode; `Passthrough` records the compression type in the blob
+    file's metadata but copies the bytes as they are - right only for relocation, which moves already-compressed frames with
+    `write_raw`.  A writer that is fed plain values (flush, ingestion, compaction-filter replacements) in Passthrough mode
+    produces files whose header says "compressed" over raw bytes: every read of such a value fails (or, for a codec without
+    framing, returns garbage).  Census over all `use_compression` sites: Passthrough iff the function feeds the writer raw
+    frames (it is the relocation set-up in merge_tables)."""
+    from rules.engine import hir_walk, hir_expr_str
+    r = R.rule(rid, "a blob writer fed plain values compresses them itself (Standard); Passthrough only for relocation", "W,B")
+    n = 0
+    for path, h in prog.hir.items():
+        for c in hir_walk(h["body"]):
+            if c.get("k") == "mcall" and c.get("m") == "use_compression" and c.get("a"):
+                a = c["a"][0]
+                txt = hir_expr_str(a, 200)
+                if "BlobCompression" not in txt and "blob_compression" not in txt:
+                    continue
+                n += 1
+                variant = (a.get("p") or "").split("::")[-1] if a.get("k") == "call" else txt
+                relocation = path == "compaction::worker::merge_tables"
+                if path.startswith("vlog::blob_file::multi_writer::") or path.startswith("vlog::blob_file::writer::"):
+                    # the multi-writer hands its own setting down to each rotated writer
+                    r.check("self.blob_compression" in txt or "blob_compression" in txt, "%s|forwards its own compression mode" % path,
+                            "the rotating writer does not hand its compression mode to the file writer", "", txt)
+                    continue
+                want = "Passthrough" if relocation else "Standard"
+                r.check(variant == want, "%s|use_compression(BlobCompression::%s(..))" % (path, want),
+                        "a blob writer that is fed %s is created in %s mode: the file's metadata and its bytes disagree about "
+                        "compression and the values cannot be read back" % ("raw frames" if relocation else "plain values", variant), "", txt)
+    if n < 4:
+        r.anchor_missing("use_compression sites (found %d, confirmed 4)" % n)
+    r.floor(4)
